@@ -12,9 +12,18 @@ ARRS = ('A', 'AS', 'A12', 'A5')
 
 
 class Shadow:
-    """generator-side shadow: list of values (A/L/AS/LS) or of (id, val) pairs (T)"""
-    def __init__(self, kind, items):
-        self.kind = kind; self.items = list(items)
+    """generator-side shadow: list of values (A/L/AS/LS) or of (id, val) pairs (T); for Arrays also the capacity (nslots), followed
+    with the rules of Array_Reserve_More / _Less only to aim the own-element ops at the region where they are executed"""
+    def __init__(self, kind, items, cap=None):
+        self.kind = kind; self.items = list(items); self.cap = len(self.items) if cap is None else cap
+
+    def grew(self):
+        n = len(self.items)
+        if n > self.cap: self.cap = n + n // 2
+
+    def shrank(self):
+        n = len(self.items)
+        if self.cap > n + n // 2: self.cap = n
 
 
 class Gen:
@@ -73,11 +82,38 @@ class Gen:
     def push(self, slot, cmd='push'):
         s = self.slots[slot]; e, dup = self.fresh(s, 0.02)
         self.lines.append(f'{cmd} {slot} {self.tok(s.kind, e)}')
-        if not dup: s.items.append(e)
+        if not dup: s.items.append(e); s.grew()
 
     def pop(self, slot):
         s = self.slots[slot]; self.lines.append(f'pop {slot}')
-        if s.items: s.items.pop()
+        if s.items: s.items.pop(); s.shrank()
+
+    def ins_pos(self, s, i):
+        """the position an insertion index names for this kind, or None"""
+        n = len(s.items)
+        if s.kind in ARRS: return i if 0 <= i <= n else (n + 1 + i if i < 0 and -(n + 1) <= i else None)
+        if s.kind in ('L', 'LS') and i == 0: return 0
+        return self.norm(n, i)
+
+    def pushelem(self, slot, at=False):
+        """push(x, get(x, k)) / push_at(x, get(x, k), i): the container's own element as the argument.  Aimed (not restricted: harness
+        and driver refuse the rest alike) at the region outside KF-C04-push-own-element: spare capacity and, for push_at, k < i."""
+        s = self.slots[slot]; n = len(s.items); r = self.rng
+        k = self.idx(n, 0.08)
+        i = None
+        if at:
+            kk = self.norm(n, k)
+            if kk is not None and s.kind in ARRS and r.random() < 0.8:
+                ip = r.randrange(kk + 1, n + 1) if kk + 1 <= n else n
+                i = ip if r.random() < 0.6 else ip - (n + 1)
+            else: i = self.idx(n)
+        self.lines.append(f'pushatelem {slot} {k} {i}' if at else f'pushelem {slot} {k}')
+        kk = self.norm(n, k)
+        if kk is None or s.kind == 'T': return
+        ip = self.ins_pos(s, i) if at else n
+        if ip is None: return
+        if s.kind in ARRS and (n + 1 > s.cap or (at and kk >= ip)): return      # own-refused
+        s.items.insert(ip, s.items[kk]); s.grew()
 
     @staticmethod
     def norm(n, i):
@@ -94,14 +130,14 @@ class Gen:
             k = i if 0 <= i <= n else (n + 1 + i if i < 0 and -(n + 1) <= i else None)
         elif s.kind in ('L', 'LS') and i == 0: k = 0
         else: k = self.norm(n, i)
-        if k is not None: s.items.insert(k, e)
+        if k is not None: s.items.insert(k, e); s.grew()
 
     def popat(self, slot, i=None):
         s = self.slots[slot]; n = len(s.items)
         if i is None: i = self.idx(n)
         self.lines.append(f'popat {slot} {i}')
         k = self.norm(n, i)
-        if k is not None: del s.items[k]
+        if k is not None: del s.items[k]; s.shrank()
 
     def get(self, slot, i=None):
         s = self.slots[slot]
@@ -131,19 +167,38 @@ class Gen:
         s = self.slots[slot]; v = self.probe(s)
         self.lines.append(f'rem {slot} {v}')
         vs = self.vals(s)
-        if v in vs: del s.items[vs.index(v)]
+        if v in vs: del s.items[vs.index(v)]; s.shrank()
 
     def compatible(self, dst, src, concat):
         d, s = self.slots[dst].kind, self.slots[src].kind
-        if dst == src: return False
+        if dst == src: return not concat                 # assign(x, x) is a no-op since fix a3140e4; concat(x, x) is a known finding
         if d == 'T': return s == 'T'
         if d in ('AS', 'LS'): return s in ('AS', 'LS')
         if d in ('A12', 'A5'): return s == d
         return s in ('A', 'L') or (concat and s == 'T')
 
+    @staticmethod
+    def keep(p, v):
+        return p == 0 or (p == 1 and v % 2 == 0)
+
+    def assignf(self, dst, src, p):
+        """assign(dst, filter(src, p)): an iterator-only source"""
+        d, s = self.slots[dst], self.slots[src]
+        self.lines.append(f'assignf {dst} {src} {p}')
+        if d.kind == 'T':
+            ys = [e for e in s.items if self.keep(p, e[1])]
+            if self.ids(d) & {e[0] for e in ys}: return          # dup-refused
+            d.items += ys                                         # (the generator only comes here with an empty d)
+        elif d.kind in ('L', 'LS'): d.items = []                  # ClassError after the clear
+        else:
+            d.items = []; d.cap = 0
+            for v in self.vals(s):
+                if self.keep(p, v): d.items.append(v); d.grew()
+
     def two(self, cmd, dst, src):
         d, s = self.slots[dst], self.slots[src]
         self.lines.append(f'{cmd} {dst} {src}')
+        if dst == src: return
         if d.kind == 'T':
             if cmd == 'concat':
                 if self.ids(d) & self.ids(s): return
@@ -151,8 +206,8 @@ class Gen:
             else: d.items = list(s.items)
         else:
             ys = self.vals(s)
-            if cmd == 'concat': d.items += ys
-            else: d.items = list(ys)
+            if cmd == 'concat': d.items += ys; d.grew()
+            else: d.items = list(ys); d.cap = len(ys)
 
     def resize(self, slot, n=None):
         s = self.slots[slot]; m = len(s.items)
@@ -164,6 +219,7 @@ class Gen:
             if n < m: del s.items[n:]
         elif n < m: del s.items[n:]
         elif s.kind == 'L': s.items += [0] * (n - m)
+        if s.kind in ARRS: s.cap = n
 
     def sort(self, slot, f=None):
         s = self.slots[slot]
@@ -173,7 +229,7 @@ class Gen:
 
     def copy(self, dst, src):
         self.lines.append(f'copy {dst} {src}')
-        s = self.slots[src]; self.slots[dst] = Shadow(s.kind, s.items)
+        s = self.slots[src]; self.slots[dst] = Shadow(s.kind, s.items)     # Array: assign into a zeroed struct: capacity = length
 
     def simple(self, cmd, slot):
         self.lines.append(f'{cmd} {slot}')
@@ -185,7 +241,8 @@ class Gen:
 
 
 WEIGHTS = [('push', 14), ('append', 3), ('pop', 9), ('pushat', 12), ('popat', 10), ('get', 8), ('set', 7), ('mem', 5), ('rem', 7),
-           ('concat', 3), ('assign', 1.5), ('copy', 1.5), ('resize', 2.5), ('sort', 3), ('iter', 2), ('len', 1), ('del', 1), ('new', 2)]
+           ('concat', 3), ('assign', 2), ('assignf', 1.5), ('pushelem', 2.5), ('pushatelem', 3.5), ('copy', 1.5), ('resize', 2.5), ('sort', 3),
+           ('iter', 2), ('len', 1), ('del', 1), ('new', 2)]
 
 
 def random_history(rng, nops, kinds, valmode, maxlen=60):
@@ -201,8 +258,15 @@ def random_history(rng, nops, kinds, valmode, maxlen=60):
             if fs is None: continue
             k = rng.choice(kinds); g.new(fs, k, [g.elem(k) for _ in range(rng.choice([0, 1, 2, 3, 4, 7, 12]))]); continue
         slot = rng.choice(list(g.slots)); s = g.slots[slot]
-        if len(s.items) > maxlen and op in ('push', 'append', 'pushat', 'concat'): op = rng.choice(['pop', 'popat', 'resize', 'rem'])
+        if len(s.items) > maxlen and op in ('push', 'append', 'pushat', 'concat', 'pushelem', 'pushatelem'): op = rng.choice(['pop', 'popat', 'resize', 'rem'])
         if op == 'push': g.push(slot)
+        elif op == 'pushelem': g.pushelem(slot)
+        elif op == 'pushatelem': g.pushelem(slot, at=True)
+        elif op == 'assignf':
+            cands = [x for x in g.slots if x != slot and g.compatible(slot, x, False)]
+            # a non-empty Tuple target is the territory of KF-C04-tuple-assign-iter (items are appended): not generated
+            if not cands or (s.kind == 'T' and s.items): continue
+            g.assignf(slot, rng.choice(cands), rng.choice([0, 0, 1, 1, 2]))
         elif op == 'append': g.push(slot, 'append')
         elif op == 'pop': g.pop(slot)
         elif op == 'pushat': g.pushat(slot)
